@@ -1,10 +1,18 @@
 #!/usr/bin/env python3
 """Prints the seeded-change table for DESIGN.md §9 from seeded/*/meta.json and seeded/RESULTS*.tsv."""
 import json, glob, os, csv, collections
-res = collections.defaultdict(list)
-for f in sorted(glob.glob('/verif/seeded/RESULTS*.tsv')):
+# result files in the order they were produced; the RESULTS-final-* files are the re-run of every seeded change
+# against the checks as they stand at the end
+files = sorted(f for f in glob.glob('/verif/seeded/RESULTS*.tsv') if 'final' not in f) + sorted(glob.glob('/verif/seeded/RESULTS-final-*.tsv'))
+hist = collections.defaultdict(list)   # (seeded, check) -> [(exit, violation_lines)] in file order
+for f in files:
     for row in csv.DictReader(open(f), delimiter='\t'):
-        if row['exit'] != '-': res[row['seeded']].append(row)
+        if row['exit'] != '-': hist[(row['seeded'], row['check'])].append(row)
+res = collections.defaultdict(list)
+for (sid, chk), rows in hist.items():
+    last = dict(rows[-1])
+    last['earlier_miss'] = any(r['exit'] == '0' for r in rows[:-1]) and last['exit'] == '1'
+    res[sid].append(last)
 print("| seeded change | property | what it changes / needs to manifest | caught by (quick tier; violation lines) | missed by |")
 print("|---|---|---|---|---|")
 for d in sorted(glob.glob('/verif/seeded/C*/')):
@@ -15,6 +23,6 @@ for d in sorted(glob.glob('/verif/seeded/C*/')):
     if isinstance(what, list): what = ' '.join(what)
     txt = (what.split('. ')[0][:150] + ' / ' + str(need).split('. ')[0][:130]).replace('|', '\\|').replace('\n', ' ')
     caught = [f"{r['check']} ({r['violation_lines']})" for r in res.get(sid, []) if r['exit'] == '1']
-    missed = [r['check'] for r in res.get(sid, []) if r['exit'] == '0']
+    missed = [r['check'] for r in res.get(sid, []) if r['exit'] == '0'] + [f"{r['check']} (earlier version of the check)" for r in res.get(sid, []) if r['earlier_miss']]
     other = [f"{r['check']}: exit {r['exit']}" for r in res.get(sid, []) if r['exit'] not in ('0', '1')]
     print(f"| {sid} | {m.get('property')} | {txt} | {', '.join(caught) or '-'} | {', '.join(missed + other) or '-'} |")
